@@ -25,10 +25,12 @@ from vf import Infra
 
 DEFECTS = ["VersionAgentLen", "CmpctSameSid", "BlkTxnNoColLock", "CmpctPrefilledIdx", "GetHeadersRecoverReturn", "InvCountWrap", "BlockTxCount", "CmpctTxSize", "GetBlockTxnIdx",
            "BlockTxnMissing", "EncFlagNoKey", "TeardownLockOrder"]
+PEERS = dict(MAXPRE=1, MAXPOST=3, CMDS='"version","peersfull","addr","getaddr"', KINDS="")      # the peers database at its limit
+PEERB = dict(MAXPRE=1, MAXPOST=5, CMDS='"version","cmpctblock","headers","idle","Bblock","Bheaders","blocktxn","block"', KINDS='"valid"')
 IDLE = dict(MAXPRE=1, MAXPOST=5, CMDS='"version","headers","idle","blocktxn","blocktxn2","block","cmpctblock"', KINDS='"valid"')
 ORPH = dict(MAXPRE=1, MAXPOST=4, CMDS='"version","txo1","txo2","cmpctblock4","sendcmpct"', KINDS='"valid"')
 INIT = {"alive": True, "ver": False, "cmpct": 0, "auth": "no", "addrd": False, "ahr": False, "bip": False, "gd": False,
-        "h1": "no", "h2": False, "mp": False, "o1": False, "o2": False}
+        "h1": "no", "h2": False, "mp": False, "pf": False, "o1": False, "o2": False}
 
 
 def workers():
@@ -50,7 +52,7 @@ def project(st):
     return {"alive": st["alive"], "ver": st["ver"], "cmpct": st["cmpct"],
             "auth": "ok" if st["authd"] else ("got" if st["auth"] else "no"),
             "addrd": st["addrd"], "ahr": st["ahr"], "bip": st["bip"], "gd": st.get("gd", False), "h1": st["h1"], "h2": st["h2"], "mp": st["mp"],
-            "o1": st.get("o1", False), "o2": st.get("o2", False)}
+            "pf": st.get("pf", False), "o1": st.get("o1", False), "o2": st.get("o2", False)}
 
 
 def frozen(d):
@@ -279,8 +281,8 @@ def run(ctx):
     ctx.cov["refuted_variants"] = refuted
 
     # ---- 2. export; the two derivations of the alphabet and the grammars must agree
-    # (quick: of the eight 2^63-ish values of every CompactSize field only two; thorough: all)
-    kinds = sorted(set(c["k"] for c in harness_json(ctx, binp, "alphabet", "a0")) - {"x63m1", "x63m8", "x63m89", "x63m100", "x63", "x62", "valid"})
+    # (quick: of the eight 2^63-ish values of every CompactSize field only 2^63-1; thorough: all)
+    kinds = sorted(set(c["k"] for c in harness_json(ctx, binp, "alphabet", "a0")) - {"x63m1", "x63m8", "x63m80", "x63m89", "x63m100", "x63", "x62", "valid"})
     r, lines = export(ctx, "P2P_gen", dict(MAXPRE=1, MAXPOST=2 if quick else 4, CMDS="", KINDS=",".join('"%s"' % k for k in kinds) if quick else ""), "all")
     spec_alpha = set(ckey(json.loads(s)) for s in r.lines("VFC"))
     spec_gram = {}
@@ -298,6 +300,8 @@ def run(ctx):
     _, olines = export(ctx, "P2P_genorph", ORPH, "orphans")
     _, ilines = export(ctx, "P2P_gen", IDLE, "idle")      # the node's own tick: blocks requested with a plain getdata
     olines += ilines
+    olines += export(ctx, "P2P_genenv", PEERS, "peers database full")[1]
+    olines += export(ctx, "P2P_genenv", PEERB, "a second peer")[1]
     sessions = sessions_of(lines, 1)
     sessions += sessions_of(blines, len(sessions) + 1)
     have = set(tuple(ckey(m) for m in s["msgs"]) for s in sessions)
